@@ -190,6 +190,11 @@ func HarnessC03Write() {
 	case op == 2 && len(free) > 0:
 		// a new placement (possibly above a populated subtree, possibly a mirror)
 		vCover("c03: new edge")
+		if vBool() {
+			// a placement created by the mandatory node-type point alone
+			batch = nil
+			vCover("c03: new edge, type only")
+		}
 		batch = append(batch, data.Point{Type: data.PointTypeNodeType, Text: "x"})
 		err = sdb.edgePoints(id, c03Nodes[free[vChoose(len(free))]], batch)
 	default:
